@@ -26,6 +26,7 @@ import (
 	"encoding/json"
 	"fmt"
 	"math/big"
+	"os"
 	"sort"
 	"testing"
 	"time"
@@ -48,6 +49,8 @@ import (
 	"github.com/ethereum/go-ethereum/crypto"
 
 	. "verifharness/hx"
+
+	"github.com/NibiruChain/collections"
 
 	"github.com/NibiruChain/nibiru/v2/app"
 	"github.com/NibiruChain/nibiru/v2/eth"
@@ -205,6 +208,7 @@ func (w *world) buildGenesis() []byte {
 		rich(accAddr(v))
 	}
 	for _, e := range w.eths {
+		addAcc(e.NibiruAddr)
 		rich(e.NibiruAddr)
 	}
 	gen[authtypes.ModuleName] = cdc.MustMarshalJSON(authtypes.NewGenesisState(authtypes.DefaultParams(), accs))
@@ -243,6 +247,7 @@ func (w *world) buildGenesis() []byte {
 	og.Params.MinVoters = 1
 	og.Params.Whitelist = oraclePairs
 	og.Params.SlashWindow = 12
+	og.Params.MinValidPerWindow = sdkmath.LegacyNewDecWithPrec(40, 2)
 	og.Pairs = oraclePairs
 	poolCoins := sdk.NewCoins(sdk.NewCoin("unibi", sdkmath.NewInt(97_000_003)))
 	og.Rewards = []oracletypes.Rewards{{Id: 1, VotePeriods: 1000, Coins: sdk.NewCoins(sdk.NewCoin("unibi", sdkmath.NewInt(97_003)))}}
@@ -466,7 +471,7 @@ func (r *replica) apply(op c01Op) []abci.ResponseDeliverTx {
 			if err != nil {
 				panic(err)
 			}
-			salt := fmt.Sprintf("s%d-%d", v, c.Header.Height)
+			salt := fmt.Sprintf("%d", (int64(v)*977+c.Header.Height*13)%10000)
 			hash := oracletypes.GetAggregateVoteHash(salt, str, valAddr)
 			out = append(out, c.DeliverCosmos(key, 600_000, fee, oracletypes.NewMsgAggregateExchangeRatePrevote(hash, accAddr(key), valAddr)))
 			r.pending[v] = &prevote{period: period, salt: salt, rates: str}
@@ -540,6 +545,8 @@ type blockDigest struct {
 	all    string   // digest of everything the property speaks about in this block
 	parts  []string // app hash, tx results, validator updates separately (for localisation)
 	codes  []uint32
+	nvu    int
+	kinds  []string // per delivered tx: "<op kind>/ok" or "<op kind>/fail"
 	stores map[string]string
 }
 
@@ -553,10 +560,19 @@ func (r *replica) runBlock(b c01Block, wantStores bool) blockDigest {
 	h := sha256.New()
 	txh := sha256.New()
 	var codes []uint32
+	var kinds []string
 	for _, op := range b.Ops {
 		for _, res := range r.apply(op) {
 			fmt.Fprintf(txh, "%d|%x|%d|%d;", res.Code, res.Data, res.GasWanted, res.GasUsed)
 			codes = append(codes, res.Code)
+			if res.Code == 0 {
+				kinds = append(kinds, op.Kind+"/ok")
+			} else {
+				kinds = append(kinds, op.Kind+"/fail")
+				if os.Getenv("C01_DEBUG") != "" {
+					fmt.Printf("FAIL %s %+v code=%d %.300s\n", op.Kind, op, res.Code, res.Log)
+				}
+			}
 		}
 	}
 	eb, appHash := c.EndBlock()
@@ -569,7 +585,7 @@ func (r *replica) runBlock(b c01Block, wantStores bool) blockDigest {
 	for _, p := range parts {
 		h.Write([]byte(p))
 	}
-	d := blockDigest{all: hex.EncodeToString(h.Sum(nil)), parts: parts, codes: codes}
+	d := blockDigest{all: hex.EncodeToString(h.Sum(nil)), parts: parts, codes: codes, kinds: kinds, nvu: len(eb.ValidatorUpdates)}
 	if wantStores {
 		d.stores = r.storeDigests()
 	}
@@ -603,8 +619,9 @@ const nReplicas = 3
 type diffObs struct {
 	Replicas [][]int  `json:"replicas"` // per replica: id of the block digest, per block
 	Differs  []string `json:"differs"`  // which observable / module stores differ at the first differing block
-	Codes    []int    `json:"codes"`    // tx result codes of replica 0 (0 / non-zero), for the input distribution
-	NTx      int      `json:"ntx"`
+	Kinds    map[string]int `json:"kinds"` // replica 0: delivered txs per op kind and outcome (input distribution only)
+	NTx      int            `json:"ntx"`
+	NValUpd  int            `json:"nvalupd"` // blocks with a non-empty validator update (replica 0)
 }
 
 func runDiff(w *world, in c01Input) diffObs {
@@ -612,7 +629,7 @@ func runDiff(w *world, in c01Input) diffObs {
 	for i := range reps {
 		reps[i] = w.newReplica()
 	}
-	obs := diffObs{Replicas: make([][]int, nReplicas), Differs: []string{}, Codes: []int{}}
+	obs := diffObs{Replicas: make([][]int, nReplicas), Differs: []string{}, Kinds: map[string]int{}}
 	ids := map[string]int{}
 	located := false
 	for _, b := range in.Blocks {
@@ -628,11 +645,11 @@ func runDiff(w *world, in c01Input) diffObs {
 			}
 			obs.Replicas[i] = append(obs.Replicas[i], id)
 		}
-		for _, c := range ds[0].codes {
-			if c != 0 {
-				c = 1
-			}
-			obs.Codes = append(obs.Codes, int(c))
+		for _, k := range ds[0].kinds {
+			obs.Kinds[k]++
+		}
+		if ds[0].nvu > 0 {
+			obs.NValUpd++
 		}
 		obs.NTx += len(ds[0].codes)
 		if !located {
@@ -657,6 +674,20 @@ func runDiff(w *world, in c01Input) diffObs {
 					break
 				}
 			}
+		}
+	}
+	if os.Getenv("C01_DEBUG") != "" {
+		r := reps[0]
+		r.c.BeginBlock(5 * time.Second)
+		ctx := r.c.Ctx()
+		n := 0
+		r.c.App.AccountKeeper.IterateAccounts(ctx, func(authtypes.AccountI) bool { n++; return false })
+		rates := r.c.App.OracleKeeper.ExchangeRates.Iterate(ctx, collections.Range[asset.Pair]{}).KeyValues()
+		miss := r.c.App.OracleKeeper.MissCounters.Iterate(ctx, collections.Range[sdk.ValAddress]{}).KeyValues()
+		su, _ := r.c.App.SudoKeeper.Sudoers.Get(ctx)
+		fmt.Printf("DEBUG accounts=%d rates=%v miss=%v sudo=%d\n", n, rates, miss, len(su.Contracts))
+		for _, v := range r.c.App.StakingKeeper.GetAllValidators(ctx) {
+			fmt.Printf("DEBUG val %s status=%v jailed=%v tokens=%s rewards=%v\n", v.OperatorAddress[:20], v.Status, v.Jailed, v.Tokens, r.c.App.DistrKeeper.GetValidatorOutstandingRewardsCoins(ctx, v.GetOperator()))
 		}
 	}
 	return obs
@@ -692,6 +723,9 @@ func genDiff(r *Rng, opener int) c01Input {
 			}
 		}
 		n := r.Range(2, 6)
+		if b == 0 {
+			blk.Ops = append(blk.Ops, c01Op{Kind: "ftcreate", A: r.Intn(nCoins)}, c01Op{Kind: "grant", A: 0, B: 1}, c01Op{Kind: "tfcreate", A: r.Intn(nUsers), B: 0})
+		}
 		if opener == 1 && b < 3 {
 			// historic failure shape: several sudo contracts in one edit
 			blk.Ops = append(blk.Ops, c01Op{Kind: "sudo", A: 1, L: []int{4 * b, 4*b + 1, 4*b + 2, 4*b + 3}})
